@@ -203,6 +203,16 @@ PROPS["C13"] = dict(
     jobs=[job("schema", "^TestSchemaRespelling$", (4, 16), (1500, 15000), (600, 3000)),
           job("document", "^TestDocumentRespelling$", (2, 8), (2500, 25000), (600, 3000))],
 )
+PROPS["C15"] = dict(
+    pkg="c15", level="exploration",
+    technique="round-trip / validity-predicate testing: Example() of every generated schema that Check accepts must be well-formed JSON (encoding/json + own recogniser), must validate against the same schema, and for plain-JSON models must equal the printer's compact rendering",
+    level_text=("Bounded exploration over four schema families (ruled plain-JSON trees, rule-free shapes with keys needing escapes, type graphs with references/or/allOf/key shortcuts/enums, and recursion "
+                "graphs with the optional self-reference first, in the middle and last among the properties). Sampled."),
+    level_note="trusted: encoding/json.Valid and the reference recogniser; the printer's compact example rendering",
+    rule=("schemas on which Check succeeds; non-trivial = uses a user type, or, key shortcut, enum, allOf, recursion cut-off, or a key whose spelling needs escaping; distinct by printed spec"),
+    assumptions=["schemas that Check rejects are discarded and counted"],
+    jobs=[job("example", "^TestExample$", (4, 16), (2500, 25000), (600, 3000))],
+)
 
 _UNBUILT = "check under construction in this session (see DESIGN.md section 5 for the planned design)"
 NOT_APPLICABLE = [dict(property_id="C%02d" % i, reason=_UNBUILT) for i in range(1, 20) if "C%02d" % i not in PROPS]
